@@ -560,9 +560,10 @@ def run_property(prop_id, tier, instances, level="model_checking", assumptions=N
         "wall_s": round(time.time() - t0, 1),
         "violations": len(violations),
     }
-    os.makedirs(os.path.join(VERIF, "evidence"), exist_ok=True)
-    with open(os.path.join(VERIF, "evidence", prop_id + ".json"), "w") as f:
-        json.dump(ev, f, indent=1, default=str)
+    if not os.environ.get("VERIF_NO_EVIDENCE"):      # set by vlib/try_mutation.sh: runs against scratch worktrees are not evidence
+        os.makedirs(os.path.join(VERIF, "evidence"), exist_ok=True)
+        with open(os.path.join(VERIF, "evidence", prop_id + ".json"), "w") as f:
+            json.dump(ev, f, indent=1, default=str)
     ok_n = sum(1 for r in runs if r.status == "ok")
     print("SUMMARY property=%s tier=%s instances=%d ok=%d violations=%d inconclusive=%d obligations=%d discharged=%d witnesses=%d/%d validated_natively=%d solver_s=%.1f wall_s=%.1f"
           % (prop_id, tier, len(runs), ok_n, len(violations), len(inconclusive), obligations, discharged, len(reached), len(witnesses),
